@@ -147,7 +147,8 @@ func EvalConst(v ssa.Value, st PState) (*ssa.Const, bool) {
 				other = x.Y
 			}
 			if other != nil {
-				if _, nn := st[nonNil{Base(other, st)}]; nn {
+				ob := Base(other, st)
+				if _, nn := st[nonNil{ob}]; nn || NeverNil(ob) {
 					return ssa.NewConst(constant.MakeBool(x.Op == token.NEQ), x.Type()), true
 				}
 			}
@@ -250,6 +251,12 @@ func ExploreX(from *ssa.BasicBlock, after ssa.Instruction, init PState, nr NoRet
 			if cutEdges != nil && cutEdges[Edge{it.b, sc.Idx}] {
 				continue
 			}
+			if dynCutHook != nil && dynCutHook(it.b, sc.Idx, it.st) {
+				continue
+			}
+			if exploreOnly != nil && !exploreOnly[sc.To] {
+				continue
+			}
 			work = append(work, item{sc.To, 0, sc.St})
 		}
 	}
@@ -279,7 +286,7 @@ func learn(st PState, cond ssa.Value, taken bool, before PState) {
 		break
 	}
 	b := Base(cond, before)
-	if _, isC := b.(*ssa.Const); !isC {
+	if _, isC := b.(*ssa.Const); !isC && testedAgain(b) {
 		st[b] = mk(taken, b.Type())
 	}
 	if bo, ok := b.(*ssa.BinOp); ok && (bo.Op == token.EQL || bo.Op == token.NEQ) {
@@ -292,6 +299,9 @@ func learn(st PState, cond ssa.Value, taken bool, before PState) {
 		if other != nil {
 			ob := Base(other, before)
 			if _, isC := ob.(*ssa.Const); isC {
+				return
+			}
+			if !testedAgain(ob) {
 				return
 			}
 			isNil := taken == (bo.Op == token.EQL)
@@ -395,4 +405,219 @@ func stepSuccs(b *ssa.BasicBlock, st PState) []succState {
 		out = append(out, succState{s, si, ns})
 	}
 	return out
+}
+
+// dynCutHook, when set (by Guarded), says whether leaving block b through successor idx is a justified edge
+// under the state of this path.
+var dynCutHook func(b *ssa.BasicBlock, idx int, st PState) bool
+
+// ResolveCond rebuilds a condition with the φ-nodes among its operands replaced by the values they stand for on
+// this path (shallow copies of the instructions, only for matching; the program is not changed). It returns v
+// itself when nothing is bound.
+func ResolveCond(v ssa.Value, st PState, depth int) ssa.Value {
+	if v == nil || depth > 4 {
+		return v
+	}
+	switch x := v.(type) {
+	case *ssa.Phi:
+		if b := Base(x, st); b != ssa.Value(x) {
+			return ResolveCond(b, st, depth+1)
+		}
+	case *ssa.UnOp:
+		if b := Base(x, st); b != ssa.Value(x) {
+			return ResolveCond(b, st, depth+1)
+		}
+		if nx := ResolveCond(x.X, st, depth+1); nx != x.X {
+			cp := *x
+			cp.X = nx
+			return &cp
+		}
+	case *ssa.BinOp:
+		nx, ny := ResolveCond(x.X, st, depth+1), ResolveCond(x.Y, st, depth+1)
+		if nx != x.X || ny != x.Y {
+			cp := *x
+			cp.X, cp.Y = nx, ny
+			return &cp
+		}
+	case *ssa.Call:
+		changed := false
+		args := make([]ssa.Value, len(x.Call.Args))
+		for i, a := range x.Call.Args {
+			args[i] = ResolveCond(a, st, depth+1)
+			if args[i] != a {
+				changed = true
+			}
+		}
+		if changed {
+			cp := *x
+			cp.Call.Args = args
+			return &cp
+		}
+	case *ssa.Convert:
+		if nx := ResolveCond(x.X, st, depth+1); nx != x.X {
+			cp := *x
+			cp.X = nx
+			return &cp
+		}
+	case *ssa.ChangeType:
+		if nx := ResolveCond(x.X, st, depth+1); nx != x.X {
+			cp := *x
+			cp.X = nx
+			return &cp
+		}
+	case *ssa.MakeInterface:
+		if nx := ResolveCond(x.X, st, depth+1); nx != x.X {
+			cp := *x
+			cp.X = nx
+			return &cp
+		}
+	case *ssa.Field:
+		if nx := ResolveCond(x.X, st, depth+1); nx != x.X {
+			cp := *x
+			cp.X = nx
+			return &cp
+		}
+	case *ssa.FieldAddr:
+		if nx := ResolveCond(x.X, st, depth+1); nx != x.X {
+			cp := *x
+			cp.X = nx
+			return &cp
+		}
+	}
+	return v
+}
+
+// exploreOnly, when set (by the reachability queries), restricts an exploration to the blocks from which the
+// target can still be reached; leaving that set cannot lead to the target.
+var exploreOnly map[*ssa.BasicBlock]bool
+
+// canReach returns the blocks from which block `to` is reachable in the block graph.
+func canReach(to *ssa.BasicBlock) map[*ssa.BasicBlock]bool {
+	out := map[*ssa.BasicBlock]bool{to: true}
+	work := []*ssa.BasicBlock{to}
+	for len(work) > 0 {
+		b := work[len(work)-1]
+		work = work[:len(work)-1]
+		for _, p := range b.Preds {
+			if !out[p] {
+				out[p] = true
+				work = append(work, p)
+			}
+		}
+	}
+	return out
+}
+
+// testedAgain: is it worth remembering what a branch said about v? Only if v takes part in another test or
+// flows into a φ (through which a later test may see it); a fact nobody can use would only keep otherwise
+// equal states apart.
+func testedAgain(v ssa.Value) bool {
+	refs := v.Referrers()
+	if refs == nil {
+		return false
+	}
+	n := 0
+	for _, r := range *refs {
+		switch x := r.(type) {
+		case *ssa.If, *ssa.Phi:
+			n++
+		case *ssa.BinOp:
+			if x.Op == token.EQL || x.Op == token.NEQ {
+				n++
+			}
+		case *ssa.UnOp:
+			if x.Op == token.NOT {
+				n++
+			}
+		case *ssa.Store:
+			if _, isAl := x.Addr.(*ssa.Alloc); isAl {
+				n++
+			}
+		}
+	}
+	return n >= 2
+}
+
+// NeverNil: v is, by construction, not nil — a fresh allocation, an interface made from one, or the result of a
+// function all of whose returns are such values (errors.New, fmt.Errorf, the repository's error constructors).
+func NeverNil(v ssa.Value) bool { return neverNilDepth(v, 0) }
+
+var neverNilFn = map[*ssa.Function]int{} // 1 yes, 2 no, 3 in progress
+
+func neverNilDepth(v ssa.Value, depth int) bool {
+	if depth > 6 {
+		return false
+	}
+	switch x := v.(type) {
+	case *ssa.Alloc, *ssa.MakeClosure, *ssa.MakeMap, *ssa.MakeChan, *ssa.MakeSlice, *ssa.Function:
+		return true
+	case *ssa.MakeInterface:
+		if _, isPtr := x.X.Type().Underlying().(*types.Pointer); isPtr {
+			return neverNilDepth(x.X, depth+1)
+		}
+		switch x.X.Type().Underlying().(type) {
+		case *types.Basic, *types.Struct, *types.Array:
+			return true // a non-pointer value in an interface is never the nil interface
+		}
+		return neverNilDepth(x.X, depth+1)
+	case *ssa.ChangeType:
+		return neverNilDepth(x.X, depth+1)
+	case *ssa.ChangeInterface:
+		return neverNilDepth(x.X, depth+1)
+	case *ssa.Phi:
+		for _, e := range x.Edges {
+			if e == ssa.Value(x) {
+				continue
+			}
+			if !neverNilDepth(e, depth+1) {
+				return false
+			}
+		}
+		return len(x.Edges) > 0
+	case *ssa.Extract:
+		if call, ok := x.Tuple.(*ssa.Call); ok {
+			return fnNeverNil(call.Call.StaticCallee(), x.Index, depth)
+		}
+	case *ssa.Call:
+		return fnNeverNil(x.Call.StaticCallee(), 0, depth)
+	case *ssa.FieldAddr, *ssa.IndexAddr:
+		return true
+	}
+	return false
+}
+
+func fnNeverNil(fn *ssa.Function, idx int, depth int) bool {
+	if fn == nil || fn.Blocks == nil || idx != 0 && fn.Signature.Results().Len() <= idx {
+		return false
+	}
+	if idx == 0 {
+		switch neverNilFn[fn] {
+		case 1:
+			return true
+		case 2, 3:
+			return false
+		}
+		neverNilFn[fn] = 3
+	}
+	ok := true
+	n := 0
+	for _, b := range fn.Blocks {
+		r, isRet := lastInstr(b).(*ssa.Return)
+		if !isRet {
+			continue
+		}
+		n++
+		if idx >= len(r.Results) || !neverNilDepth(r.Results[idx], depth+1) {
+			ok = false
+		}
+	}
+	ok = ok && n > 0 && fn.Recover == nil
+	if idx == 0 {
+		if ok {
+			neverNilFn[fn] = 1
+		} else {
+			neverNilFn[fn] = 2
+		}
+	}
+	return ok
 }
